@@ -222,6 +222,35 @@ theorem genCall_equals_fresh_replay (s : State) (x : Nat) (hs : s.seed = some x)
     simp only []
     rw [hd]
 
+theorem resetSeed_pos (s : State) (q : Option Nat) (a : SeedArg) :
+    resetSeed { s with pos := q } a = { resetSeed s a with pos := q } := rfl
+
+theorem setSeed_pos (s : State) (q : Option Nat) (x : Option Nat) :
+    setSeed { s with pos := q } x = { setSeed s x with pos := q } := by
+  by_cases hx : x ≠ s.seed
+  · simp only [setSeed]; rw [if_pos hx, if_pos hx]; rfl
+  · simp only [setSeed]; rw [if_neg hx, if_neg hx]
+
+theorem update_pos (s : State) (q : Option Nat) (m : MVal) (a : SeedArg) :
+    update { s with pos := q } m a = { update s m a with pos := q } := by
+  by_cases hm : s.genModel ≠ m
+  · simp only [update]; rw [if_pos hm, if_pos hm]; rfl
+  · simp only [update]; rw [if_neg hm, if_neg hm]
+    cases a with
+    | keep => rfl
+    | set x => exact setSeed_pos s q x
+
+theorem genCall_out_pos (s : State) (q : Option Nat) (n : Nat) (b : Bool) (p : Option Nat) :
+    (genCall { s with pos := q } n b p).2 = (genCall s n b p).2 := by
+  by_cases hn : (b = true ∧ s.genModel.nug ≠ 0)
+  · simp only [genCall]; rw [if_pos hn, if_pos hn]
+  · simp only [genCall]; rw [if_neg hn, if_neg hn]
+
+/-- the fresh object that reproduces a field-level call: the field's current model, the resulting seed and
+    mode number, and the number of variates drawn since the stream was last restarted -/
+def callRecipe (s : State) (a : SeedArg) (p x : Nat) : Recipe :=
+  { model := s.srfModel, seed := some x, modeNo := (preCall s a p).modeNo, burn := (preCall s a p).draws }
+
 /-- **C11_noise_replay (field level)**: after ANY history, a field-level call that leaves an integer seed
     returns exactly what a freshly constructed object returns that has the field's current model, the
     resulting seed and mode number, has drawn `burn` noise variates, and is evaluated at the same positions
@@ -229,27 +258,25 @@ theorem genCall_equals_fresh_replay (s : State) (x : Nat) (hs : s.seed = some x)
     restarted by `update` iff the model (incl. its nugget) or the seed value changed. -/
 theorem srfCall_equals_fresh_replay (s : State) (a : SeedArg) (p n x : Nat) (h : Coherent s)
     (hs : (preCall s a p).seed = some x) :
-    (step s (.srfCall a p n)).2 =
-      (step (replayState { model := s.srfModel, seed := some x, modeNo := (preCall s a p).modeNo,
-                           burn := (preCall s a p).draws }) (.srfCall .keep p n)).2 := by
-  have hr : recipe (preCall s a p) = { model := s.srfModel, seed := some x, modeNo := (preCall s a p).modeNo,
-                                       burn := (preCall s a p).draws } := by
-    simp only [recipe, preCall_genModel, hs]
+    (step s (.srfCall a p n)).2 = (step (replayState (callRecipe s a p x)) (.srfCall .keep p n)).2 := by
+  have hr : recipe (preCall s a p) = callRecipe s a p x := by
+    simp only [recipe, callRecipe, preCall_genModel, hs]
   have hg := genCall_equals_fresh_replay (preCall s a p) x hs (preCall_coherent s a p h) n true (some p)
   rw [hr] at hg
-  obtain ⟨hgm, hsm, _, _, _, _⟩ := replayState_spec { model := s.srfModel, seed := some x, modeNo := (preCall s a p).modeNo,
-                           burn := (preCall s a p).draws }
+  obtain ⟨hgm, hsm, _, _, _, _⟩ := replayState_spec (callRecipe s a p x)
   -- on the fresh object `update` sees its own model: nothing happens
   have hu : ∀ t : State, t.genModel = t.srfModel → update t t.srfModel .keep = t := by
     intro t ht; unfold update; simp [ht]
-  simp only [step, preCall]
-  rw [hu _ (by rw [hgm, hsm])]
   -- `set_pos` does not touch what the generator reads
-  have hp : ∀ (t : State) (q : Nat), (genCall (setPos t q) n true (some p)).2 = (genCall t n true (some p)).2 := by
-    intro t q; unfold genCall setPos; simp only []; split <;> rfl
-  rw [hp]
-  simp only [preCall] at hg
-  rw [hg]
+  have hp : ∀ (t : State) (q : Nat), (genCall (setPos t q) n true (some p)).2 = (genCall t n true (some p)).2 :=
+    fun t q => genCall_out_pos t (some q) n true (some p)
+  show some (genCall (preCall s a p) n true (some p)).2 =
+    some (genCall (preCall (replayState (callRecipe s a p x)) .keep p) n true (some p)).2
+  apply congrArg some
+  unfold preCall at hg ⊢
+  rw [hu _ (by rw [hgm, hsm]), hp, hp]
+  rw [hp] at hg
+  exact hg.symm
 
 /-- the stream is restarted exactly by a visible change: if the generator's copy already equals the field's
     model and the seed argument is `keep` or the present value, a field-level call continues the stream … -/
@@ -288,20 +315,21 @@ theorem srfCall_pos_is_given (s : State) (a : SeedArg) (p n : Nat) :
   · exact ⟨rfl, _, rfl, rfl⟩
 
 /-- the stored positions never influence an output: two states that differ only in the stored positions
-    give the same output for every operation -/
+    give the same output for every operation (so the value at a location cannot depend on which points an
+    earlier call requested) -/
 theorem stored_pos_irrelevant (s : State) (q : Option Nat) (op : Op) :
     (step { s with pos := q } op).2 = (step s op).2 := by
   cases op with
   | srfCall a p n =>
-    simp only [step, preCall, setPos, update, setSeed, resetSeed, genCall]
-    split <;> (try split) <;> (try split) <;> (try split) <;> rfl
+    show some (genCall (setPos (update { s with pos := q } s.srfModel a) p) n true (some p)).2 =
+      some (genCall (setPos (update s s.srfModel a) p) n true (some p)).2
+    rw [update_pos]
+    rfl
   | modelChange m => rfl
   | genSetSeed x => rfl
   | genSetModeNo n => rfl
   | genResetSeed a => rfl
-  | genCall n b =>
-    simp only [step, genCall]
-    split <;> rfl
+  | genCall n b => exact congrArg some (genCall_out_pos s q n b none)
 
 example : Coherent (run (init ⟨1, 1⟩ (some 7) 100)
     [.srfCall (.set (some 7)) 0 5, .modelChange ⟨2, 0⟩, .srfCall .keep 1 5, .genSetModeNo 50, .srfCall (.set none) 0 3]).1 :=
